@@ -60,6 +60,11 @@ func Map[K comparable, V any](m map[K]V) iter.Seq2[K, V] {
 					if typ.Kind() == reflect.String {
 						cf = func(x any) string { return reflect.ValueOf(x).String() }
 					}
+				default:
+					if plainKey(typ) {
+						// floats, and structs/arrays built from plain kinds: %#v is injective on them (NaN keys excepted, which nothing can tell apart anyway)
+						cf = func(x any) string { return fmt.Sprintf("%#v", x) }
+					}
 				}
 			}
 		}
@@ -123,4 +128,24 @@ func Map[K comparable, V any](m map[K]V) iter.Seq2[K, V] {
 			}
 		}
 	}
+}
+
+// plainKey reports whether values of typ are fully described by their printed form (no pointers, interfaces or channels inside).
+func plainKey(typ reflect.Type) bool {
+	switch typ.Kind() {
+	case reflect.String, reflect.Int, reflect.Int8, reflect.Int16, reflect.Int32, reflect.Int64,
+		reflect.Uint, reflect.Uint8, reflect.Uint16, reflect.Uint32, reflect.Uint64, reflect.Uintptr, reflect.Bool,
+		reflect.Float32, reflect.Float64, reflect.Complex64, reflect.Complex128:
+		return true
+	case reflect.Array:
+		return plainKey(typ.Elem())
+	case reflect.Struct:
+		for i := 0; i < typ.NumField(); i++ {
+			if !plainKey(typ.Field(i).Type) {
+				return false
+			}
+		}
+		return true
+	}
+	return false
 }
